@@ -309,6 +309,7 @@ def run(ctx):
     for fam, s1, s2 in pairs[:3]:
         ctx.sample({"family": fam, "state1": s1, "state2": s2})
     outhash_section(ctx, env)
+    cli_section(ctx)
     # ---- 3. correspondence verdict ------------------------------------------------------------------
     ctx.coverage["disagreements"] = len(disagreements)
     if disagreements and not ctx.violations:
@@ -431,6 +432,117 @@ def search_failing_pair(ctx, env, n):
                 ctx.violation("two different target states receive the same cache key", {"kind": "oracle", "oracle": "equal key => equal state (search after correspondence break)",
                               "algo": algo, "state1": s1, "state2": s2, "key": k1}, signature="collision:search")
     return len(pairs)
+
+
+# ------------------------------------------------------------------------------------------------
+# CLI level: the keys under which the real `grog build` stores target results must not depend on the checkout
+# location, the BUILD-file format, the worker count (scheduling) or declaration order.
+# ------------------------------------------------------------------------------------------------
+
+def _cli_ws(rng):
+    """a small buildable workspace as {package path: dto (shape of _lockload renderers)} + source files"""
+    pkgs, files, labels = {}, {}, []
+    for pk in rng.sample(["", "p", "p/q", "r"], rng.randint(2, 3)):
+        ts = []
+        for i in range(rng.randint(1, 3)):
+            name = "t%d" % i
+            ins = rng.sample(["a.txt", "b.txt", "sub/c.txt", "*.txt"], rng.randint(0, 3))
+            for f in ins:
+                if "*" not in f:
+                    files[(pk + "/" if pk else "") + f] = rng.choice(CONTENTS[:6]) + pk + name
+            deps = rng.sample(labels, min(len(labels), rng.choice([0, 1, 2])))
+            fp = [[k, rng.choice(FPV)] for k in rng.sample(["k", "K", "platform", "v1"], rng.choice([0, 0, 1, 2]))]
+            out = "o_%s.out" % name
+            ts.append({"name": name, "command": "echo %s_%s_%d > %s" % (pk.replace("/", "_"), name, rng.randrange(100), out),
+                       "deps": deps, "inputs": ins, "excludes": [], "outputs": [out], "bin_output": "", "checks": [],
+                       "tags": rng.choice([[], [], ["multiplatform-cache"]]), "fingerprint": fp, "env": [], "platforms": None, "timeout": ""})
+            labels.append("//%s:%s" % (pk, name))
+        pkgs[pk] = {"targets": ts, "aliases": [], "default_platforms": None}
+    return pkgs, files
+
+
+def _materialise(root, pkgs, files, fmt, shuffle_rng=None, toml=""):
+    import os, copy as _c
+    from checks import _lockload as LL
+    os.makedirs(root, exist_ok=True)
+    open(os.path.join(root, "grog.toml"), "w").write(toml)
+    for rel, content in files.items():
+        pth = os.path.join(root, rel)
+        os.makedirs(os.path.dirname(pth), exist_ok=True)
+        open(pth, "w").write(content)
+    for pk, dto in pkgs.items():
+        d = _c.deepcopy(dto)
+        if shuffle_rng is not None:            # declaration order of targets, inputs, deps and fingerprint entries
+            shuffle_rng.shuffle(d["targets"])
+            for t in d["targets"]:
+                shuffle_rng.shuffle(t["inputs"]); shuffle_rng.shuffle(t["deps"]); shuffle_rng.shuffle(t["fingerprint"])
+        pdir = os.path.join(root, pk)
+        os.makedirs(pdir, exist_ok=True)
+        if fmt == "json":
+            open(os.path.join(pdir, "BUILD.json"), "w").write(LL.render_json(d))
+        elif fmt == "yaml":
+            open(os.path.join(pdir, "BUILD.yaml"), "w").write(LL.render_yaml(d))
+        else:
+            open(os.path.join(pdir, "BUILD.star"), "w").write(LL.render_starlark(d))
+
+
+def _keys_after_build(grog, wsdir, groot, algo):
+    import os, subprocess
+    env = {k: v for k, v in os.environ.items() if not k.startswith("GROG_")}
+    env.update({"GROG_ROOT": groot, "HOME": groot, "NO_COLOR": "1", "GROG_HASH_ALGORITHM": algo})
+    try:
+        p = subprocess.run([grog, "build", "//..."], cwd=wsdir, env=env, capture_output=True, text=True, timeout=90)
+    except subprocess.TimeoutExpired:
+        return None, "timeout"
+    keys = []
+    for d in os.listdir(groot) if os.path.isdir(groot) else []:
+        t = os.path.join(groot, d, "cache", "target")
+        if os.path.isdir(t):
+            for dp, _, fns in os.walk(t):
+                keys += [f for f in fns if not f.startswith("tmp-")]
+    return (p.returncode, sorted(keys)), (p.stdout + p.stderr)[-1500:]
+
+
+def cli_section(ctx):
+    import os
+    grog = ctx.grog_binary()
+    if not grog:
+        return
+    rng = ctx.rng
+    n = 4 if ctx.tier == "quick" else 25
+    variants = [("json", "elsewhere/deep/er/ws", "num_workers = 1\n", False), ("json", "ws2", "num_workers = 8\n", True),
+                ("yaml", "y/ws", "", False), ("star", "s/ws", "", True)]
+    runs = compared = 0
+    for i in range(n):
+        pkgs, files = _cli_ws(rng)
+        algo = rng.choice(["xxh3", "sha256"])
+        base = ctx.scratch("cli%d" % i)
+        _materialise(os.path.join(base, "a", "ws"), pkgs, files, "json")
+        ref, log = _keys_after_build(grog, os.path.join(base, "a", "ws"), os.path.join(base, "a", "root"), algo)
+        runs += 1
+        ntargets = sum(len(d["targets"]) for d in pkgs.values())
+        if ref is None or ref[0] != 0 or len(ref[1]) != ntargets:
+            ctx.notes.append("cli reference build unusable (rc/keys): %s %s" % (ref, log[-300:]))
+            continue
+        for fmt, loc, toml, shuffle in variants:
+            tag = fmt + ("-shuffled" if shuffle else "") + ":" + loc
+            _materialise(os.path.join(base, tag.replace(":", "_").replace("/", "_"), loc), pkgs, files, fmt, rng if shuffle else None, toml)
+            got, log2 = _keys_after_build(grog, os.path.join(base, tag.replace(":", "_").replace("/", "_"), loc),
+                                          os.path.join(base, tag.replace(":", "_").replace("/", "_"), "root"), algo)
+            runs += 1
+            if got is None:
+                ctx.notes.append("cli variant build timed out: " + tag)
+                continue
+            compared += 1
+            if got != ref:
+                ctx.violation("the same targets built from another checkout location / BUILD-file format / declaration order / worker count "
+                              "are stored under different cache keys",
+                              {"kind": "oracle", "oracle": "CLI keys independent of location, format, order, workers", "variant": tag, "algo": algo,
+                               "packages": pkgs, "files": files, "reference": {"rc": ref[0], "keys": ref[1]}, "variant_result": {"rc": got[0], "keys": got[1]},
+                               "log": log2[-800:]}, signature="cli-key-depends-on:" + fmt + ("-shuffled" if shuffle else ""))
+    ctx.coverage["cli_builds"] = runs
+    ctx.coverage["cli_variants_compared"] = compared
+    ctx.coverage["evaluations"] += runs
 
 
 def replay(ctx, rep):
